@@ -61,7 +61,8 @@ def run(c):
     # ---- stage B: generated cases
     if thorough:
         p = os.path.join(sd, "MC_C18_gen.cfg")
-        open(p, "w").write(open(p).read().replace("Thorough = FALSE", "Thorough = TRUE").replace("BigLimit = 400", "BigLimit = 1000"))
+        cfg = open(p).read().replace("Thorough = FALSE", "Thorough = TRUE").replace("BigLimit = 400", "BigLimit = 1000")
+        open(p, "w").write(cfg)
     res = c.tlc(sd, "MC_C18_gen", "MC_C18_gen", workers=workers, timeout=1800)
     if not res.clean:
         raise Infra("case generator failed:\n" + res.out[-2000:])
